@@ -14,6 +14,13 @@ pub struct FlowGen<'t, 'a> {
     budget: i32,
     pub continue_last: bool,
     pub error_stmt: bool,
+    /// a queue of numbers (rolled by side-effecting conditions), a ticking function and its global counter
+    queue: Name,
+    tick: Name,
+    ticks: Name,
+    /// names that are never initialised at top level: first assigned inside whatever block gets there first
+    locals: Vec<Name>,
+    pub side_effect_cond: bool,
 }
 
 impl<'t, 'a> FlowGen<'t, 'a> {
@@ -28,6 +35,11 @@ impl<'t, 'a> FlowGen<'t, 'a> {
             budget: 28,
             continue_last: false,
             error_stmt: false,
+            queue: Name::Simple("flowqueue".into()),
+            tick: Name::Simple("Ticker".into()),
+            ticks: Name::Simple("ticks".into()),
+            locals: vec![Name::Simple("blocklocal".into()), Name::Common("the".into(), "blocklocal".into()), Name::Proper(vec!["Block".into(), "Local".into()])],
+            side_effect_cond: false,
         }
     }
 
@@ -53,7 +65,17 @@ impl<'t, 'a> FlowGen<'t, 'a> {
     fn cond(&mut self, loop_level: usize) -> Expr {
         let v = self.vals[self.t.pick(self.vals.len())].clone();
         let w = self.vals[self.t.pick(self.vals.len())].clone();
-        match self.t.weighted(&[20, 10, 8, 8, 8, 16, 6, 6]) {
+        match self.t.weighted(&[20, 10, 8, 8, 8, 16, 6, 6, 5, 5]) {
+            8 => {
+                // a condition that makes progress by itself: the head of the queue, removed by the test
+                self.side_effect_cond = true;
+                Expr::Primary(Primary::Pop(Box::new(pvar(&self.queue.clone()))))
+            }
+            9 => {
+                // a call that prints, counts and answers "fewer than k ticks so far"
+                self.side_effect_cond = true;
+                Expr::Primary(Primary::Call(self.tick.clone(), vec![num(1.0 + self.t.pick(4) as f64)]))
+            }
             0 => var(&v),
             1 => un(UnOp::Not, var(&v)),
             2 => bin(BinOp::And, var(&v), var(&w)),
@@ -72,7 +94,22 @@ impl<'t, 'a> FlowGen<'t, 'a> {
     }
 
     fn simple_stmt(&mut self, loop_level: usize) -> Stmt {
-        match self.t.weighted(&[50, 12, 10, 10, 6, 3, 4]) {
+        match self.t.weighted(&[50, 12, 10, 10, 6, 3, 4, 5, 4, 3]) {
+            7 => {
+                // first assigned wherever control gets first: a block local there, a global when that is the top level
+                let l = self.locals[self.t.pick(self.locals.len())].clone();
+                put(num((10 + self.t.pick(90)) as f64), &l)
+            }
+            8 => {
+                // read it: a runtime error where no such variable is alive
+                let l = self.locals[self.t.pick(self.locals.len())].clone();
+                say(bin(BinOp::Plus, strlit("l="), var(&l)))
+            }
+            9 => {
+                // grows by one element where it is alive, starts afresh in every new block activation
+                let l = self.locals[self.t.pick(self.locals.len())].clone();
+                Stmt::Push { array: pvar(&l), value: Some(PushRhs::List(vec![num(1.0)])) }
+            }
             6 => {
                 // a pronoun: the variable named last, or a runtime error right after a block (taken or not) has ended
                 say(bin(BinOp::Plus, strlit("it="), Expr::Primary(Primary::Ident(Ident::Pronoun))))
@@ -161,6 +198,19 @@ impl<'t, 'a> FlowGen<'t, 'a> {
                 }
                 3 => out.push(Stmt::Break),
                 4 => out.push(Stmt::Continue),
+                _ if self.t.chance(1, 3) => {
+                    // a loop driven by a side-effecting condition, its body often empty
+                    let cond = if self.t.chance(1, 2) {
+                        Expr::Primary(Primary::Pop(Box::new(pvar(&self.queue.clone()))))
+                    } else {
+                        Expr::Primary(Primary::Call(self.tick.clone(), vec![num(2.0 + self.t.pick(4) as f64)]))
+                    };
+                    self.side_effect_cond = true;
+                    let body = if self.t.chance(1, 2) { vec![] } else { self.block(depth - 1, loop_level + 1) };
+                    out.push(Stmt::While { cond, body });
+                    out.push(say(var(&self.queue.clone())));
+                    out.push(say(var(&self.ticks.clone())));
+                }
                 _ => {
                     // free-form loop on a value; may not terminate (the model's budget decides)
                     let v = self.vals[self.t.pick(self.vals.len())].clone();
@@ -194,6 +244,20 @@ impl<'t, 'a> FlowGen<'t, 'a> {
             let u = gen_uval(self.t);
             s.extend(u.stmts(&v, &self.scratch.clone()));
         }
+        // the queue ends in falsy values; the ticker says a marker, counts, and answers whether the count is below its argument
+        let q: Vec<Expr> = (0..3 + self.t.pick(6)).map(|_| num((self.t.pick(4) + 1) as f64)).chain([num(0.0), num(5.0), lit(Lit::Null)]).collect();
+        s.push(Stmt::Push { array: pvar(&self.queue.clone()), value: Some(PushRhs::List(q)) });
+        s.push(put(num(0.0), &self.ticks.clone()));
+        let lim = Name::Simple("ticklimit".into());
+        s.push(Stmt::Function {
+            name: self.tick.clone(),
+            params: vec![lim.clone()],
+            body: vec![
+                Stmt::Inc { dest: Ident::Name(self.ticks.clone()), amount: 1 },
+                say(bin(BinOp::Plus, strlit("tick"), var(&self.ticks.clone()))),
+                Stmt::Return { value: bin(BinOp::Less, var(&self.ticks.clone()), var(&lim)) },
+            ],
+        });
         let body = self.block(4, 0);
         s.extend(body);
         if self.t.chance(1, 30) {
